@@ -7,6 +7,7 @@ import (
 	"fmt"
 	"strings"
 
+	"github.com/cloudwego/eino/schema"
 	"github.com/cloudwego/eino/verifharness/gcase"
 	"github.com/cloudwego/eino/verifharness/vh"
 )
@@ -17,11 +18,75 @@ type c04Case struct {
 	G        *gcase.Graph `json:"g"`
 	Input    string       `json:"input"`
 	InChunks []int        `json:"inChunks"`
+	// top-level nodes whose natively streaming forms emit through a schema.Pipe (filled and closed
+	// before the call returns) instead of an array-backed reader; the model does not see the difference
+	Pipe []string `json:"pipe,omitempty"`
+}
+
+// c04BuildOpts: the stream producers of the case (nil: array readers everywhere).
+func c04BuildOpts(c *c04Case) *gcase.BuildOpts {
+	if len(c.Pipe) == 0 {
+		return nil
+	}
+	piped := map[string]bool{}
+	for _, k := range c.Pipe {
+		piped[k] = true
+	}
+	return &gcase.BuildOpts{Produce: func(path string, chunks []gcase.M) *schema.StreamReader[gcase.M] {
+		if !piped[path] {
+			return schema.StreamReaderFromArray(chunks)
+		}
+		sr, sw := schema.Pipe[gcase.M](len(chunks) + 1)
+		for _, ch := range chunks {
+			sw.Send(ch, nil)
+		}
+		sw.Close()
+		return sr
+	}}
+}
+
+// c04FanInWidth: the widest data fan-in of the top-level graph (edges into one node or END).
+func c04FanInWidth(g *gcase.Graph) int {
+	w, _ := c04WidestFanIn(g)
+	return w
+}
+
+func c04WidestFanIn(g *gcase.Graph) (w int, at string) {
+	indeg := map[string]int{}
+	for _, e := range g.Edges {
+		indeg[e[1]]++
+		if indeg[e[1]] > w {
+			w, at = indeg[e[1]], e[1]
+		}
+	}
+	return
+}
+
+// c04NonArrayPreds: how many predecessors of the widest fan-in hand over a stream that is not an
+// array reader: a converted one (output key) or a pipe filled by a natively streaming form.
+func c04NonArrayPreds(c *c04Case) int {
+	_, at := c04WidestFanIn(c.G)
+	piped := map[string]bool{}
+	for _, p := range c.Pipe {
+		piped[p] = true
+	}
+	k := 0
+	for _, e := range c.G.Edges {
+		if e[1] != at {
+			continue
+		}
+		for _, nd := range c.G.Nodes {
+			if nd.Key == e[0] && (nd.OutKey != "" || (piped[nd.Key] && strings.ContainsAny(nd.Native, "st"))) {
+				k++
+			}
+		}
+	}
+	return k
 }
 
 func c04One(ctx *vh.Ctx, c *c04Case) error {
 	ctx.Progress.Mark(c)
-	impl, class := gcase.RunParadigms(c.G, c.Input, c.InChunks, nil)
+	impl, class := gcase.RunParadigms(c.G, c.Input, c.InChunks, c04BuildOpts(c))
 	nodes, _, branches, nested, cyclic, fanin := gcase.Shape(c.G)
 	ctx.Res.Dist(fmt.Sprintf("nodes=%d", nodes))
 	if impl == nil {
@@ -69,7 +134,14 @@ func c04One(ctx *vh.Ctx, c *c04Case) error {
 		pr := impl[p]
 		if pr.Class != "ran" {
 			cl := strings.SplitN(pr.Class, ":", 2)[0]
-			ctx.Res.Disagree(vh.Disagreement{Signature: "C04:" + p + ":" + cl, What: p + " " + pr.Class, Case: c, Model: model})
+			sig, what := "C04:"+p+":"+cl, p+" "+pr.Class
+			if w := c04FanInWidth(c.G); cl == "hang" && w >= 2 {
+				// a merged stream reader picks its receive strategy by the number of merged streams
+				na := c04NonArrayPreds(c)
+				sig += fmt.Sprintf(":fan-in-width=%d:non-array=%d", w, na)
+				what += fmt.Sprintf(" (widest fan-in of the graph: %d data predecessors, %d of them with a converted or pipe-backed stream)", w, na)
+			}
+			ctx.Res.Disagree(vh.Disagreement{Signature: sig, What: what, Case: c, Model: model})
 			continue
 		}
 		if pr.Res.Err != nil {
@@ -406,6 +478,93 @@ func c04GenChain(r *vh.Rand) *gcase.Graph {
 	return g
 }
 
+// c04GenWide: fan-in of every width 2..8. START (-> head) -> w producers -> a lambda / a pass-through
+// node / END, or a chain with a Parallel of w members. The producers' streams reach the merge in every
+// backing the runtime has: array readers (a natively streaming lambda emitting from an array, or the
+// one-chunk stream wrapped around a non-streaming form), converted readers (WithOutputKey) and pipes.
+func c04GenWide(r *vh.Rand) (*gcase.Graph, []string) {
+	w := r.Range(2, 8)
+	chain := r.Chance(35)
+	g := &gcase.Graph{Mode: []string{"pregel", "dag"}[r.Intn(2)]}
+	if chain {
+		g.Mode = "pregel"
+	}
+	src := "start"
+	if r.Chance(25) {
+		g.Nodes = append(g.Nodes, c04Lambda(r, "h"))
+		g.Edges = append(g.Edges, [2]string{"start", "h"})
+		if chain {
+			g.Stages = append(g.Stages, []string{"h"})
+		}
+		src = "h"
+	}
+	var prods, pipes []string
+	// the share of converted / pipe-backed producers varies from case to case, so that every
+	// count of non-array streams at the merge comes up for every width
+	keyPct, pipePct := []int{0, 30, 60, 100}[r.Intn(4)], []int{0, 30, 60, 100}[r.Intn(4)]
+	for i := 0; i < w; i++ {
+		n := c04Lambda(r, fmt.Sprintf("a%d", i))
+		if !strings.ContainsAny(n.Native, "st") && r.Chance(80) {
+			n.Native += []string{"s", "t"}[r.Intn(2)]
+		}
+		if chain || r.Chance(keyPct) {
+			n.OutKey = fmt.Sprintf("k%d", i)
+			n.OutTyped = r.Chance(10)
+		}
+		if r.Chance(pipePct) {
+			pipes = append(pipes, n.Key)
+		}
+		g.Nodes = append(g.Nodes, n)
+		g.Edges = append(g.Edges, [2]string{src, n.Key})
+		prods = append(prods, n.Key)
+	}
+	if chain {
+		g.Stages = append(g.Stages, prods)
+	}
+	join := "end"
+	switch k := r.Intn(100); {
+	case k < 40:
+		g.Nodes = append(g.Nodes, c04Lambda(r, "j"))
+		join = "j"
+	case k < 55:
+		g.Nodes = append(g.Nodes, gcase.Node{Key: "j", Body: gcase.Body{Op: "pass"}})
+		join = "j"
+	}
+	for _, p := range prods {
+		g.Edges = append(g.Edges, [2]string{p, join})
+	}
+	if join != "end" {
+		g.Edges = append(g.Edges, [2]string{join, "end"})
+		if chain {
+			g.Stages = append(g.Stages, []string{join})
+		}
+	}
+	return g, pipes
+}
+
+// c04WideFamily: the fan-in widths, run before the generic stream of cases.
+func c04WideFamily(ctx *vh.Ctx) error {
+	n := ctx.N(400, 4000)
+	for i := 0; i < n && ctx.TimeLeft(); i++ {
+		g, pipes := c04GenWide(ctx.Rng)
+		c := &c04Case{G: g, Input: fmt.Sprintf("input%d", ctx.Rng.Intn(5)), Pipe: pipes}
+		for k := ctx.Rng.Intn(3); k > 0; k-- {
+			c.InChunks = append(c.InChunks, ctx.Rng.Intn(3))
+		}
+		nonArray := c04NonArrayPreds(c)
+		kind := "graph"
+		if len(g.Stages) > 0 {
+			kind = "parallel"
+		}
+		ctx.Res.Dist(fmt.Sprintf("wide:%s:width=%d", kind, c04FanInWidth(g)))
+		ctx.Res.Dist(fmt.Sprintf("wide:non-array-streams=%d", nonArray))
+		if err := c04One(ctx, c); err != nil {
+			return err
+		}
+	}
+	return nil
+}
+
 // c04Corpus: small hand-written members of the families above, run first on every seed.
 func c04Corpus() []*c04Case {
 	one, zero := 1, 0
@@ -495,6 +654,9 @@ func runC04(ctx *vh.Ctx) error {
 		return err
 	}
 	if err := c04FmFamily(ctx); err != nil {
+		return err
+	}
+	if err := c04WideFamily(ctx); err != nil {
 		return err
 	}
 	n := ctx.N(6000, 40000)
